@@ -200,7 +200,7 @@ class Container:
         current data to disk.
         """
         write_to_disk_secs = self.assignment.ram / DISK_SCAN_GB_SEC
-        write_to_disk_ticks = int(write_to_disk_secs / self.tick_length_secs)
+        write_to_disk_ticks = max(1, int(write_to_disk_secs / self.tick_length_secs))
         self.suspend_ticks = write_to_disk_ticks
         self._suspend_ticks_left = write_to_disk_ticks
 
